@@ -345,14 +345,25 @@ def raise_cls(terms, rep, exc):
 
 
 # ----------------------------------------------------------------------------- one sequence (C + history oracle)
-def eval_path(prod, terms, p):
-    """(underlying value, payoff value) or the exception"""
+def eval_path(prod, terms, p, calls=1):
+    """(underlying value, payoff value) or the exception.  `calls` = how often the processed path is valued: 0 = the path is
+    only passed to underlying_value (the fine/coarse pattern of the multilevel engine passes two paths before it values),
+    k >= 2 = the same processed path is valued k times; the value returned is the last one, all of them must be identical"""
     t, path, jp = arrays(p)
     with warnings.catch_warnings(), np.errstate(all="ignore"):
         warnings.simplefilter("ignore")
         u = prod.underlying_value(t, path, jp)
-        v = prod(u)
+        v = None
+        for k in range(calls):
+            vk = prod(u)
+            if k and not identical(v, vk):
+                raise Revaluation(f"valuation #{k + 1} of the same processed path gives {vk!r}, the first gave {v!r}")
+            v = vk
     return u, v
+
+
+class Revaluation(Exception):
+    pass
 
 
 def run_sequence(ctx, d, model=True):
@@ -380,9 +391,13 @@ def run_sequence(ctx, d, model=True):
         p = op
         scale = 1 + sum(abs(x) for r in p["rows"] for x in r) + sum(abs(x) for x in pay_numbers(terms["pay"]))
         # ---- implementation, used object
+        calls = int(p.get("calls", 1))
         try:
-            u, v = eval_path(A, terms, p)
+            u, v = eval_path(A, terms, p, calls)
             exc = None
+        except Revaluation as e:
+            ctx.fail("oracle", "c17.history", prefix, {"what": str(e), "op_index": i}, cls=cls)
+            return
         except Exception as e:  # noqa
             u = v = None
             exc = e
@@ -395,7 +410,7 @@ def run_sequence(ctx, d, model=True):
         except Exception as e:  # noqa
             uB = vB = None
             excB = e
-        if (exc is None) != (excB is None) or (exc is None and not (identical(u, uB) and identical(v, vB))):
+        if (exc is None) != (excB is None) or (exc is None and not (identical(u, uB) and (calls == 0 or identical(v, vB)))):
             ctx.fail("oracle", "c17.history", prefix,
                      {"what": "value on the used object differs from the value on a fresh object with the same terms and representation",
                       "used": repr((u, v)) if exc is None else f"raises {type(exc).__name__}: {exc}",
@@ -436,7 +451,13 @@ def run_sequence(ctx, d, model=True):
                 ctx.fail("corr", "c17.seq.underlying", prefix, {"name": "Drivers/C17 uv vs Product.underlying_value", "impl": ucv,
                                                                "model": str(mu), "rep": cur, "op_index": i}, cls=cls)
                 return
-        mv = parse_val(ctx.lean(f"call {val_wire(ucv)}"))
+        if calls == 0:
+            ctx.branches["c17.path:passed_not_valued"] += 1
+            continue
+        for _ in range(calls):
+            mv = parse_val(ctx.lean(f"call {val_wire(ucv)}"))
+        if calls > 1:
+            ctx.branches["c17.path:revalued"] += 1
         vcv = canon(v, False)
         if dont_care_call(terms, p, ucv):
             ctx.branches["c17.dont_care:payoff"] += 1
@@ -597,6 +618,13 @@ def gen_sequence(rng):
             ops.append(dict(op="update", rep=cur))
         else:
             ops.append(gen_path(rng, cur, d, flat))
+            # how often the processed path is valued: mostly once; sometimes passed without being valued (the multilevel
+            # engine passes the fine and the coarse path before valuing) or valued repeatedly
+            x = rng.random()
+            if x < 0.2:
+                ops[-1]["calls"] = 0
+            elif x < 0.4:
+                ops[-1]["calls"] = rng.choice([2, 2, 3])
     if not any(o["op"] == "path" for o in ops):
         ops.append(gen_path(rng, cur, d, flat))
     return dict(kind="seq", terms=terms, ops=ops)
@@ -617,6 +645,9 @@ def directed_sequences(rng):
         terms = dict(und=dict(k=rng.choice(["spot", "asian"])), pay=dict(k="bar", call=call, K=strike(rng), up=up, **{"in": isin}, B=B),
                      notional=1.0)
         out.append(dict(kind="seq", terms=terms, ops=[mk(quiet), mk(knock), mk(quiet), mk(quiet)]))
+        # the same, with the knocking path passed but not valued before the quiet one, and the quiet one valued twice
+        out.append(dict(kind="seq", terms=terms, ops=[dict(mk(knock), calls=0), dict(mk(quiet), calls=2), dict(mk(knock), calls=2),
+                                                      dict(mk(quiet), calls=1)]))
     for k in ("spot", "logspot", "asian", "mean"):
         # log pricing, then identity pricing with the same object
         terms = dict(und=dict(k=k), pay=dict(k="fwd", K=strike(rng)), notional=1.0)
